@@ -46,6 +46,8 @@ func main() {
 				r.MergeOff = true
 			case "maporder":
 				r.MapOrder = kv[1]
+			case "lockdisc":
+				r.LockDisc = true
 			case "pooldrain":
 				r.PoolDrain = true
 			case "fuel":
